@@ -128,6 +128,12 @@ def worker(chunk):
             r = f(tr, sem if infrag and 'error' not in sem else None)
             if r and (infrag or pid in monitors.EVERYWHERE) and not (why == 'cb_raise' and pid in ('C14', 'C19')):
                 viol[pid] = r[:3]
+        for pid in want:
+            # a hang inside the fragment is a failing input of the properties that promise somebody a value
+            if pid not in viol and infrag and 'error' not in sem:
+                h = monitors.hang(pid, tr, sem)
+                if h:
+                    viol[pid] = h
         if monitors.plain_graph(tr['graph']) and 'error' not in sem:
             # the hypotheses of the plain-fragment theorems hold on this program, and the reference evaluator
             # Sem (the monitors' oracle) solves the dataflow equations the theorems are stated about
